@@ -528,12 +528,17 @@ class LoopMixin:
         st = State()
         fid = st.new_frame(None, c.path)
         st.fid = fid
+        st.frames[fid]["$fn"] = fn
         a = fn.args
         fr = st.frames[fid]
         fr["$cls"] = cls.name if cls is not None else None
         names = [p.arg for p in a.posonlyargs + a.args + a.kwonlyargs]
         self.param_names = names + ([a.vararg.arg] if a.vararg else []) + ([a.kwarg.arg] if a.kwarg else [])
-        self.harr(st, "$alloc")
+        st.assume(self.harr(st, "$alloc") >= 0)
+        if c.extra.get("handling"):
+            # the function is specified for calls made while an exception is being handled (`handling_exception()` in its requires):
+            # an arbitrary exception object is the current one at entry
+            st.exc_stack.append(self.sym(st, "handled_exc", "Exc"))
         fk = self.func_kind(fn)
         for i, p in enumerate(names):
             hint = c.types.get(p)
@@ -639,6 +644,13 @@ class LoopMixin:
                 if rs.get("iff") and rs.get("when"):
                     g = z3.Not(self.spec_eval(st, rs["when"], fid, st.heap0, st.entry_frame, {}))
                     self.emit(st, "post:raises-when:%s" % rs.get("cls"), g, "post")
+            rt = c.returns
+            if val.k == "none" and isinstance(rt, str) and rt not in ("none", "Any", "val") and not rt.startswith("Opt["):
+                # the function returns None here although its contract declares a (non-optional) result type: that alone is the
+                # violation; the postconditions, which talk about the result's fields, are not evaluated on this path
+                self.emit(st, "post:result-type (returns None, declared %s)" % rt, z3.BoolVal(False), "post", c.props)
+                self.frame_obligations(st, c.modifies, "frame", st.writes, fid)
+                return
             for label, src, props in c.ensures:
                 for sub, ssrc in split_conj(src):
                     g = self.spec_eval(st, ssrc, fid, st.heap0, st.entry_frame, {"result": val})
